@@ -22,6 +22,7 @@ THEOREMS = [
     "C41.to_async_single_then_complete",
     "C41.to_async_invoked_once",
     "C41.from_callback_one_then_complete",
+    "C41.from_callback_value_no_mapper",
     "C41.from_callback_passes_own_handler",
     "C41.from_callback_asis_mapper_never_completes",
     "C41.from_callback_asis_second_subscription_two_handlers",
